@@ -211,6 +211,21 @@ UNITS.append(dict(name="c01_rrtconnect_growTree", template="C01/rrtconnect.c", m
                             dict(name="goal_tree_state_not_validated", where="body:growTree", rx=r"ISVALID\(dstate\) && ", repl=""),
                             dict(name="adds_when_trapped", where="body:growTree", rx=r"if \(!validMotion\)\s*return TRAPPED;", repl="")]))
 
+RCI_RULES = [
+    (r"growTree\((\w+), tgi, rmotion\)", r"GROW(\1, &tgi)", 0), (r"Motion \*(addedMotion|startMotion|goalMotion|solution) =", r"MotionRef \1 =", 0),
+    (r"si_->copyState\(rstate, tgi\.xstate\);", ";", 0),
+    (r"const double newDist = tree->getDistanceFunction\(\)\(addedMotion, otherTree->nearest\(addedMotion\)\);", "const double newDist = nondet_double();", 0),
+    (r"goal->isStartGoalPairValid\(startMotion->root, goalMotion->root\)", "PAIR_VALID(startMotion, goalMotion)", 0),
+    (r"connectionPoint_ = std::make_pair\(startMotion->state, goalMotion->state\);", "", 0),
+    (r"MotionRef solution = startMotion;.*?pdef_->addSolutionPath\(path, false, 0\.0, getName\(\)\);", "ADD_EXACT(startMotion, goalMotion);", 0, re.S),
+    (r"goal->isSatisfied\(tgi\.xmotion->state, &dist\);", "dist = GOAL_DIST(tgi.xmotion);", 0),
+    (r"(\w+)->parent\b", r"M_parent[\1]", 0), (r"\bnullptr\b", "NIL", 0),
+]
+UNITS.append(dict(name="c01_rrtconnect_iteration", template="C01/rrtconnect_iter.c", mode="plain", entry="h_rc_iteration", flags=["--bounds-check", "--pointer-check"], unwind=10, level="bounded", bound="one iteration, <= 4 growTree calls",
+                  backend="minisat", timeout=300, functions=["ompl::geometric::RRTConnect::solve (connect attempt, exact-solution test, approximate-solution bookkeeping of one iteration)"],
+                  sources=[dict(name="solve_iteration", file=RCF, begin=r"GrowState gs = growTree\(tree, tgi, rmotion\);", end=r"si_->freeState\(tgi\.xstate\);", rules=RCI_RULES + [(r"\}\s*\Z", "", 0)], loops={"allow_uncontracted": True})],
+                  canaries=[dict(name="tree_flag_not_restored_when_trapped", where="body:solve_iteration", rx=r"if \(gsc == TRAPPED\)\s*tgi\.start = !tgi\.start;", repl="")]))
+
 # ---------------------------------------------------------------- PRM::addMilestone (bounded)
 PM_RULES = [
     (r"std::lock_guard<std::mutex> _\(graphMutex_\);", "", 0), (r"Vertex m = boost::add_vertex\(g_\);", "Vertex m = ADD_VERTEX();", 0), (r"stateProperty_\[(\w+)\]", r"SP[\1]", 0),
@@ -244,6 +259,18 @@ def _c03_query_units():
             v = _copy.deepcopy(u); v["name"] = v["name"].replace("c03_", "c01_"); out.append(v)
     return out
 UNITS += _c03_query_units()
+
+# the motion validators every planner funnels through (anchors DiscreteMotionValidator.cpp, SpaceInformation.cpp): units of C05.  C01 needs them because several
+# planners (KPIECE1, BKPIECE1, STRIDE, PDST) keep the "last valid state" of checkMotion(s1, s2, lastValid) as a tree node: it must be a validated state.
+def _c05_units():
+    sp = importlib.util.spec_from_file_location("c05v", os.path.join(os.path.dirname(__file__), "C05.py")); m = importlib.util.module_from_spec(sp); sp.loader.exec_module(m)
+    import copy as _copy
+    out = []
+    for u in m.UNITS:
+        if u["name"] in ("c05_checkMotion_lastvalid", "c05_checkMotion_bisection", "c05_si_checkMotion_firstInvalid", "c05_si_checkMotion_bisection"):
+            v = _copy.deepcopy(u); v["name"] = v["name"].replace("c05_", "c01_validator_"); out.append(v)
+    return out
+UNITS += _c05_units()
 
 ASSUMPTIONS = ["start states are addressed by index; bounds/validity of the start state at the ghost index are arbitrary fixed values", "exceptions (missing problem definition) are outside the modelled paths"]
 TRUSTED = ["extraction rewrite tables of units/C01.py, units/C17.py", "stubs in units/C01/inputs.c, units/C17/pathgeom.c", "CBMC 6.11 DFCC + minisat"]
